@@ -164,6 +164,9 @@ func (g *Gen) pushManifest(repo string) {
 		}
 		sj := g.subjTok(repo)
 		toks = []string{"mt=" + mtField, "cfg=" + g.blobTok(repo), "cfgmt=" + cfgmt, "layers=" + strings.Join(layers, ","), "subj=" + sj, "at=" + at, "ann=" + ann}
+		if len(layers) > 0 && g.r.Intn(5) == 0 {
+			toks = append(toks, "lmt="+g.pick([]string{"foreign", "dforeign"}))
+		}
 		if sj != "" {
 			g.subjects = append(g.subjects, sj)
 		}
@@ -539,6 +542,10 @@ func (g *Gen) uploadStep(offs map[int]int, recv map[int]string) {
 			line += " cr=" + g.pick([]string{fmt.Sprintf("%d-%d", off, off+1), fmt.Sprintf("%d-%d", off+2, off+3)})
 		}
 		out := g.emit(line + " body=" + c)
+		// a completed session is gone, also when its content was in the repository already
+		if strings.HasPrefix(out, "201 ") && g.r.Intn(3) == 0 {
+			g.emit(g.pick([]string{"UGET ", "UGET ", "UDEL "}) + repo + " " + sid)
+		}
 		// a refused PUT ends the session; a client that goes on with it all the same must be refused as well - and if it
 		// is not, what it ends up storing is read back
 		if strings.HasPrefix(out, "400 ") && g.r.Intn(2) == 0 {
@@ -556,6 +563,18 @@ func (g *Gen) uploadStep(offs map[int]int, recv map[int]string) {
 		}
 	case 9:
 		g.emit("UGET " + repo + " " + g.sessTok())
+		// content the repository already holds, pushed once more through a session of its own: completed like any other and gone
+		if g.r.Intn(2) == 0 && len(g.blobsIn[repo]) > 0 {
+			c := g.pick(g.blobsIn[repo])
+			if out := g.emit("UPOST " + repo); strings.Contains(out, "loc=session:") {
+				sid := out[strings.Index(out, "loc=session:")+len("loc=session:"):]
+				sid = strings.SplitN(strings.SplitN(sid, "?", 2)[0], ":", 2)[1]
+				g.noteSession(out)
+				if put := g.emit("UPUT " + repo + " " + sid + " state=0 digest=sha256:" + c + " body=" + c); strings.HasPrefix(put, "201 ") {
+					g.emit("UGET " + repo + " " + sid)
+				}
+			}
+		}
 	case 10:
 		g.emit("UDEL " + repo + " " + g.sessTok())
 	case 11, 12:
@@ -657,6 +676,22 @@ func (g *Gen) run(n int) {
 					g.refsStep()
 				case 7:
 					g.tagsStep()
+				case 8:
+					// a tagged image with a layer of a media type of its own (non-distributable): uploaded, referenced, retained
+					repo := "r1"
+					for _, c := range []string{"c1", "l3"} {
+						g.emit("UPOST " + repo + " digest=sha256:" + c + " body=" + c)
+					}
+					name := g.defBody("image", []string{"mt=ocim", "cfg=sha256:c1", "cfgmt=cfg", "layers=sha256:l3", "subj=", "at=", "ann=", "lmt=" + g.pick([]string{"foreign", "dforeign"})})
+					if out := g.emit(fmt.Sprintf("MPUT %s t3 ct=ocim body=%s", repo, name)); strings.HasPrefix(out, "201 ") {
+						g.manIn[repo] = append(g.manIn[repo], name)
+						g.manMT[name] = "ocim"
+						if g.r.Intn(2) == 0 {
+							g.emit("SETTIME " + repo + " sha256:l3 old")
+						}
+						g.emit("GC " + repo)
+						g.emit("BHEAD " + repo + " sha256:l3")
+					}
 				default:
 					g.step()
 				}
